@@ -164,17 +164,17 @@ func (n *node) start(snapshot []byte) {
 	go func() {
 		var err error
 		defer func() {
+			// Handle panic in runF.
+			// (err is still nil when runF panicked, recover must not depend on it)
+			if r := recover(); r != nil {
+				trace := make([]byte, 512)
+				l := runtime.Stack(trace, false)
+				err = fmt.Errorf("%v: Trace:%s", r, string(trace[:l]))
+			}
 			// Always close children edges
 			n.closeChildEdges()
 			// Propagate error up
 			if err != nil {
-				// Handle panic in runF
-				r := recover()
-				if r != nil {
-					trace := make([]byte, 512)
-					n := runtime.Stack(trace, false)
-					err = fmt.Errorf("%s: Trace:%s", r, string(trace[:n]))
-				}
 				n.abortParentEdges()
 				n.diag.Error("node failed", err)
 
